@@ -60,6 +60,27 @@ pub struct Spec {
     /// alphanumeric with a leading zero, the smallest number of a range, …) instead of a random one
     #[serde(default)]
     pub pins: Vec<(usize, usize)>,
+    /// path "sample": the scenario configuration has two base paths — an overlay that has every
+    /// message-type directory but none of the shipped scenarios, then the shipped directory
+    #[serde(default)]
+    pub overlay: bool,
+}
+
+/// An overlay scenario directory: `<verif>/work/overlay/mtNNN/zz_overlay_only.json` for every type.
+fn ensure_overlay(all: &[scen::Scenario]) -> std::path::PathBuf {
+    let root = crate::batch::verif_root().join("work").join("overlay");
+    let mut seen = std::collections::BTreeSet::new();
+    for sc in all {
+        if seen.insert(sc.mt.clone()) {
+            let d = root.join(format!("mt{}", sc.mt));
+            let f = d.join("zz_overlay_only.json");
+            if !f.exists() {
+                let _ = std::fs::create_dir_all(&d);
+                let _ = std::fs::write(&f, sc.value.to_string());
+            }
+        }
+    }
+    root
 }
 
 /// A legal extreme of a datafake generator's range, or None if the generator is not one whose
@@ -155,11 +176,25 @@ fn apply_pins(scenario: &Value, pins: &[(usize, usize)]) -> (Value, usize) {
     if nodes.is_empty() {
         return (v, 0);
     }
+    let ptr_of = |path: &Vec<String>| format!("/{}", path.iter().map(|k| k.replace('~', "~0").replace('/', "~1")).collect::<Vec<_>>().join("/"));
     for (nth, choice) in pins {
         let path = &nodes[nth % nodes.len()];
-        let ptr = format!("/{}", path.iter().map(|k| k.replace('~', "~0").replace('/', "~1")).collect::<Vec<_>>().join("/"));
+        let ptr = ptr_of(path);
         let args = v.pointer(&ptr).and_then(|n| n.get("fake")).and_then(|a| a.as_array()).cloned();
-        if let (Some(args), Some(slot)) = (args, v.pointer_mut(&ptr)) {
+        let Some(args) = args else { continue };
+        if *choice >= 1_000_000 {
+            // a coincidence of independent draws: every generator with the same arguments draws the same value
+            let Some(b) = boundary_draw(&args, *choice) else { continue };
+            for other in &nodes {
+                let op = ptr_of(other);
+                if v.pointer(&op).and_then(|n| n.get("fake")).and_then(|a| a.as_array()) == Some(&args) {
+                    if let Some(slot) = v.pointer_mut(&op) {
+                        *slot = b.clone();
+                        applied += 1;
+                    }
+                }
+            }
+        } else if let Some(slot) = v.pointer_mut(&ptr) {
             if let Some(b) = boundary_draw(&args, *choice) {
                 *slot = b;
                 applied += 1;
@@ -558,12 +593,18 @@ fn judge(sc: &scen::Scenario, d: &Value, out: &mut Outcome) -> Option<Violation>
     None
 }
 
-fn run_sample_typed<T>(sc: &scen::Scenario, out: &mut Outcome)
+fn run_sample_typed<T>(sc: &scen::Scenario, overlay: Option<&std::path::PathBuf>, out: &mut Outcome)
 where
     T: SwiftMessageBody + serde::de::DeserializeOwned,
 {
     let mt = format!("MT{}", sc.mt);
-    let cfg = ScenarioConfig::with_paths(vec![scen::scenario_root()]);
+    let cfg = match overlay {
+        Some(o) => {
+            out.count("config.scenario_lookup_through_two_base_paths", 1);
+            ScenarioConfig::with_paths(vec![o.clone(), scen::scenario_root()])
+        }
+        None => ScenarioConfig::with_paths(vec![scen::scenario_root()]),
+    };
     let m = match swift_mt_message::generate_sample_with_config::<T>(&mt, Some(&sc.name), &cfg) {
         Ok(m) => m,
         Err(e) => {
@@ -602,8 +643,8 @@ where
     }
 }
 
-fn run_sample(sc: &scen::Scenario, out: &mut Outcome) {
-    with_type!(sc.mt.as_str(), T => run_sample_typed::<T>(sc, out), {
+fn run_sample(sc: &scen::Scenario, overlay: Option<&std::path::PathBuf>, out: &mut Outcome) {
+    with_type!(sc.mt.as_str(), T => run_sample_typed::<T>(sc, overlay, out), {
         out.harness_error = Some(format!("unknown message type {}", sc.mt));
     })
 }
@@ -675,7 +716,12 @@ impl Engine for C15 {
             diag: wl.chance(1, 3),
             tz,
             in_place,
-            pins: if path != "sample" && wl.chance(1, 3) { (0..1 + wl.below(2)).map(|_| (wl.below(1000), wl.below(1000))).collect() } else { vec![] },
+            pins: if path != "sample" && wl.chance(1, 3) {
+                (0..1 + wl.below(2)).map(|_| (wl.below(1000), if wl.chance(1, 4) { 1_000_000 + wl.below(1000) } else { wl.below(1000) })).collect()
+            } else {
+                vec![]
+            },
+            overlay: wl.chance(1, 2),
         }
     }
 
@@ -714,6 +760,7 @@ impl Engine for C15 {
         }
         let spec_c = spec.clone();
         let diag = spec.diag;
+        let overlay_dir = if spec.overlay && spec.path == "sample" { Some(ensure_overlay(&env.scenarios)) } else { None };
         // the worker process executes one run at a time, so the process environment is the run's
         match &spec.tz {
             Some(tz) => unsafe { std::env::set_var("TZ", tz) },
@@ -728,7 +775,7 @@ impl Engine for C15 {
             let _ = std::collections::hash_map::RandomState::new();
             with_diag(diag, || {
                 if path == "sample" {
-                    run_sample(&sc, &mut o2)
+                    run_sample(&sc, overlay_dir.as_ref(), &mut o2)
                 } else if path == "interleaved" {
                     run_interleaved(&scs, &spec_c, &ctx2, &mut o2)
                 } else {
@@ -812,6 +859,11 @@ impl Engine for C15 {
         for k in 0..spec.pins.len() {
             let mut s = spec.clone();
             s.pins.remove(k);
+            v.push(s);
+        }
+        if spec.overlay {
+            let mut s = spec.clone();
+            s.overlay = false;
             v.push(s);
         }
         if !spec.in_place.is_empty() {
